@@ -58,6 +58,12 @@ def plans():
     for name in ('valued', 'reals'):
         ps.append({'name': name + '_values', 'schema': name, 'bound': 2, 'model': False, 'obs': obs,
                    'random': valued_random})
+    # identifier values given explicitly, repeated and null (the histories of C11): an equality filter that names a whole
+    # identifier still returns every match
+    from . import c11
+    for name in ('valued', 'many_one_2key', 'grid'):
+        ps.append({'name': name + '_idclash', 'schema': name, 'bound': 2, 'model': False, 'obs': obs,
+                   'random': c11.idclash_runs})
     return ps
 
 
@@ -74,5 +80,6 @@ def check(tier, replay_path=None):
             'orderings and < <= predicates only on non-referential attributes (an unset value is not ordered)',
             'equality filters compare values of the attribute\'s own type',
             'navigate_subtype is asked only on the subtype/supertype shape (links without phrases)',
-            'states are those reachable by the C02 histories, by simulation and by random histories that also write values',
+            'states are those reachable by the C02 histories, by simulation and by random histories that also write values '
+            '(plain attributes; in the *_idclash plans also identifying attributes: repeated and null identifiers)',
         ])
